@@ -435,7 +435,8 @@ def check_naming_connection(case):
 
 MEMBER_CASES = ("coincide/leaf-vs-nested", "coincide/two-nestings", "coincide/three", "coincide/leaf-vs-nested-reversed",
                 "reassigned/leaf-to-sub", "reassigned/sub-to-leaf", "reassigned/leaf-to-wider-leaf", "reassigned/sub-to-other-sub",
-                "reassigned/twice")
+                "reassigned/twice", "copied/flipped-sub-under-new-name", "copied/leaf-under-new-name", "copied/named-newcomer",
+                "copied/sub-copy-under-new-name")
 
 
 def check_members(kind):
@@ -480,11 +481,27 @@ def check_members(kind):
         elif kind == "reassigned/sub-to-other-sub":
             B.x = sub(("s", 1))()
             B.x = sub(("t", 2), ("s", 3))()
-        else:
+        elif kind == "reassigned/twice":
             B.x = sub(("s", 1))()
             B.x = h.Signal(width=3)
             B.x = sub(("q", 2))()
             B.y = sub(("q", 1))()
+        else:
+            # a member added AFTER definition whose object still carries the name of another member (a copy, a flipped
+            # copy, an object made with that name): the bundle has both members
+            import copy as _copy
+            B.x = sub(("s", 1), ("t", 2))()
+            if kind == "copied/flipped-sub-under-new-name":
+                B.z = h.flipped(B.x)
+            elif kind == "copied/sub-copy-under-new-name":
+                B.z = _copy.copy(B.x)
+            elif kind == "copied/leaf-under-new-name":
+                B.z = _copy.copy(B.y)
+            else:
+                B.z = h.Signal(name="y", width=2)
+            if sorted(B.namespace) != ["x", "y", "z"]:
+                return ("members.lost", f"{kind}: after `B.z = <an object that carried another member's name>` the bundle "
+                                        f"has members {sorted(B.namespace)}, expected x, y, z", w)
 
     def leaves(bundle, prefix=()):
         for n, sgn in bundle.signals.items():
